@@ -156,6 +156,7 @@ def lanePcRead : List String → String
   | _ => "bad-op"
 
 def parseFieldTok (t : String) : Option Req.H2.Meta.Event :=
+  if t == "!" then some .decodeError else
   match t.splitOn "=" with
   | [n, v] => match decodeHex n, decodeHex v with
     | some a, some b => some (.field a b)
@@ -187,7 +188,7 @@ def laneH2Meta : List String → String
 def laneH3Head : List String → String
   | [m, hex] =>
     match m.toNat?, decodeHex hex with
-    | some M, some s => Req.C07.H3Budget.render (Req.C07.H3Budget.readHead M s)
+    | some M, some s => Req.C07.H3Budget.render s (Req.C07.H3Budget.readHead M s)
     | _, _ => "bad-op"
   | _ => "bad-op"
 
